@@ -35,6 +35,13 @@ func (w *World) AuditProofs(where string, pr prover, root []byte, want *ref.SMap
 		}
 		return nil
 	}
+	if _, has := want.Get([]byte{}); has {
+		// ICS-23 cannot express the empty key (an existence proof "must have key
+		// set"), neither as the claim nor as a neighbour of an absent key: states
+		// holding it (only generated for index-less export/import runs) have no
+		// verifiable proofs - a limit of the specification
+		return nil
+	}
 	full := len(keys) <= 24
 	wantKeys := want.Keys()
 	for _, k := range keys {
@@ -181,7 +188,7 @@ func (w *World) AuditAllProofs(r *sim.Rand, st *ProofStats) *Violation {
 			return v
 		}
 		// versioned proof entry point of the mutable tree
-		if len(keys) > 0 && w.M.Committed[ver].Len() > 0 {
+		if _, hasEmptyKey := w.M.Committed[ver].Get([]byte{}); len(keys) > 0 && w.M.Committed[ver].Len() > 0 && !hasEmptyKey {
 			k := keys[r.Intn(len(keys))]
 			p, err := w.Tree.GetVersionedProof(k, ver)
 			if err != nil {
